@@ -25,3 +25,23 @@ check("C02",
       "length <= 3 quick / 4-5 thorough, Table slot-count patterns as listed in evidence, inversion on 1-d grids up to 2+3 states. Chain-level "
       "samplers (adapted binary search trees on Levy models) are checked under C01's harness, see DESIGN.",
       TECH, "DESIGN.md section 3 C02")
+
+check("C12",
+      "Bounded model checking of the real rectangle-mass code of LevyCopulaModel on an abstract Lévy copula (uninterpreted F) and abstract additive "
+      "marginal measures with symbolic rectangle end points: fast 2-d/3-d paths == general recursion for every sign pattern, additivity under splits, "
+      "margin sums, sub-margin masses == I-margin volumes, tail integrals, cache consistency and non-negativity from the d-increasing axiom are "
+      "discharged by the solver for all real end points. Holds for every copula/marginal model satisfying the interface, which no finite set of test "
+      "models can show.",
+      "Trusted: z3; abstract copula/measure axioms (grounded, margins, additive cumulative functions). Bounds: d in {2,3}, interval kinds listed in "
+      "evidence. Outside: equality with the integral of a joint density, inverse_tail_integral (root search in C), rectangles with an end point at 0 or "
+      "containing the origin.",
+      TECH, "DESIGN.md section 3 C12")
+
+check("C11",
+      "Bounded model checking of the real copula classes on symbolic arguments (either sign, +-inf entries) in dimension 2 and 3: grounded and "
+      "uniform-margin identities for Clayton (every theta>0, eta in [0,1], pow as an uninterpreted function with the power laws), independent and "
+      "dependent copulas; non-negative volume of every rectangle with finite lower ends for the independent and dependent copulas (piecewise linear, "
+      "decided exactly).",
+      "Trusted: z3; power-law axioms for pow. Outside: d-increasingness of Clayton (needs the sign of a mixed derivative), conditional "
+      "distribution/inverse, rectangles touching the corner (inf,...,inf) where F is infinite.",
+      TECH, "DESIGN.md section 3 C11")
